@@ -223,6 +223,24 @@ Example C13_raceC_repaired :
   sst (srv s) q2 = Some SOpen /\ sst (srv s) q3 = Some SOpen /\ scbp (srv s) q3 = Some false.
 Proof. exact raceC_repaired. Qed.
 
+(* ---------- transient API faults ([EProcF i c]: every API call that addresses queue c fails
+   during that processing step) are events like any other: EVERY theorem above that
+   quantifies over an event [e] (state changes only by request, Closed only when empty,
+   Sync never opens or closes, root never closed, provenance, index completeness) holds for
+   faulted steps too.  A faulted queue keeps its server object: ---------- *)
+Theorem C13_fault_keeps_queue : forall s i c o,
+  srv s !! c = Some o -> srv (step s (EProcF i c)).1 !! c = Some o.
+Proof. exact fault_keeps_queue. Qed.
+Print Assumptions C13_fault_keeps_queue.
+
+Example C13_fault_retried_then_consistent :
+  let s1 := run fault_init (firstn 2 fault_history) in
+  let s := run fault_init fault_history in
+  sst (srv s1) q2 = Some SOpen /\ scbp (srv s1) q3 = None /\ wq s1 = [mkReq q2 AClose EvCmd 1] /\
+  caught_up s = true /\ sst (srv s) q2 = Some SClosed /\ sst (srv s) q3 = Some SClosed /\ scbp (srv s) q3 = Some true /\
+  law_no_stuck_child s = true /\ law_children_follow_closed_parent s = true.
+Proof. exact fault_retried_then_consistent. Qed.
+
 (* ---------- QUIESCENCE: what is false (known findings, reproduced on the real controller) ---------- *)
 
 (* KNOWN FINDING C13-quiescent-marked-child-stuck: "re-opening a parent re-opens the
